@@ -150,7 +150,7 @@ func (c *c20Case) Sx() string {
 }
 
 func (c *c20Case) Nontrivial() bool { return len(c.Recs) >= 2 }
-func (c *c20Case) Kind() string    { return fmt.Sprintf("comp=%d/recs=%s", c.Comp, bucket(len(c.Recs))) }
+func (c *c20Case) Kind() string     { return fmt.Sprintf("comp=%d/recs=%s", c.Comp, bucket(len(c.Recs))) }
 
 func genC20(r *rand.Rand, tier string) []Case {
 	n := 200
@@ -189,8 +189,8 @@ func genC20(r *rand.Rand, tier string) []Case {
 func init() {
 	register(&Prop{
 		ID: "C20", Num: 20,
-		Gen: genC20,
-		New: func() Case { return &c20Case{} },
+		Gen:  genC20,
+		New:  func() Case { return &c20Case{} },
 		Rule: "files of 0-7 records (nil, empty, adversarial payloads up to 3000 bytes; 1 MiB in the thorough tier) under each of the 4 compression types, written by the real writer and parsed by the generated Kaitai reader; compared record by record with the file bytes and the native reader. Non-trivial: >=2 records.",
 	})
 }
